@@ -12,6 +12,9 @@ import glob
 import json
 import os
 import re
+import subprocess
+import threading
+from concurrent.futures import ThreadPoolExecutor
 
 import vlib
 
@@ -124,6 +127,16 @@ def beh(cfg, ident, hist, expect=""):
             "steps": steps_of(hist)}
 
 
+def norm_json_hist(hist):
+    """hist printed with ToJson: sets are arrays already, records are objects; tuples <<p, pc>> are arrays"""
+    for h in hist:
+        for k in ("set", "view", "prot", "hb", "rec", "conn"):
+            h["o"][k] = sorted(h["o"][k])
+        for c in (h["o"]["cl"] or {}).values() if isinstance(h["o"]["cl"], dict) else []:
+            c["res"] = sorted(c["res"])
+    return hist
+
+
 def last_hist(txt):
     """the value of hist in the last state of a TLC trace file"""
     i = txt.rindex("\nSTATE_")
@@ -131,18 +144,95 @@ def last_hist(txt):
     return plain(st["hist"])
 
 
-def simulate(ctx, cfg, num, workers, depth):
+class Job:
+    """one TLC run; the jobs of a check run through a small pool (JVM start-up dominates the small ones)"""
+
+    def __init__(self, spec, cfg, must_pass=True, **kw):
+        self.spec, self.cfg, self.must_pass, self.kw = spec, cfg, must_pass, kw
+        self.r = None
+
+
+def tlc_many(ctx, jobs, parallel):
+    """vlib.Ctx.tlc for several runs at once: run_tlc in worker threads, the accounting of Ctx.tlc (same log line,
+    same evidence record, same inconclusive rules) in the calling thread. Local copy because Ctx.tlc is sequential."""
+    def one(j):
+        kw = dict(j.kw)
+        kw.setdefault("seed", ctx.seed if kw.get("simulate") else None)
+        j.r = vlib.run_tlc(os.path.join(vlib.VERIF, "spec", j.spec), os.path.join(vlib.VERIF, "spec", j.cfg), ctx.work, **kw)
+    with ThreadPoolExecutor(max_workers=parallel) as ex:
+        list(ex.map(one, jobs))
+    for j in jobs:
+        r = j.r
+        ctx.log("TLC %s/%s: generated=%d distinct=%d depth=%d ok=%s violated=%s wall=%.1fs%s" % (
+            j.spec, os.path.basename(j.cfg), r.generated, r.distinct, r.depth, r.ok, r.violated, r.wall,
+            (" ERROR=" + (r.error or "")[:300]) if r.error else ""))
+        ctx.cov["states"] += r.distinct or r.generated
+        ctx.cov["transitions"] += r.generated
+        ctx.cov["tlc_runs"].append({"spec": j.spec, "cfg": os.path.basename(j.cfg), "generated": r.generated,
+                                    "distinct": r.distinct, "depth": r.depth, "ok": r.ok, "violated": r.violated,
+                                    "wall_s": round(r.wall, 1), "simulate": j.kw.get("simulate"),
+                                    "coverage": r.coverage if j.kw.get("coverage") else None})
+        if r.error:
+            ctx.inconclusive("TLC failed on %s: %s (log %s)" % (j.cfg, (r.error or "")[:300], r.log_path))
+        elif r.violated and j.must_pass:
+            ctx.inconclusive("model %s violates %s (log %s): model counterexample not bound to a real-code reproduction"
+                             % (j.cfg, r.violated, r.log_path))
+
+
+def sim_job(ctx, cfg, num, workers):
     d = os.path.join(ctx.work, "sim_" + cfg.replace(".cfg", ""))
     os.makedirs(d, exist_ok=True)
-    r = ctx.tlc(MC, "discovery/" + cfg, simulate="file=%s/t,num=%d" % (d, num), depth=depth, workers=workers, seed=ctx.seed,
-                timeout=400)
+    return Job(MC, "discovery/" + cfg, simulate="file=%s/t,num=%d" % (d, num), depth=cfg_consts(cfg)["MaxLen"] + 1, workers=workers,
+               timeout=600)
+
+
+def sim_behaviours(ctx, cfg):
+    d = os.path.join(ctx.work, "sim_" + cfg.replace(".cfg", ""))
     out = []
     for f in sorted(glob.glob(d + "/t_*")):
         try:
             out.append(beh(cfg, "%s/%s/seed%d" % (cfg.replace(".cfg", ""), os.path.basename(f), ctx.seed), last_hist(open(f).read())))
         except Exception as ex:   # a truncated file of a run that timed out
             ctx.note("unreadable trace file %s: %s" % (f, ex))
-    return r, out
+    return out
+
+
+def start_gc_probe(ctx):
+    """backoffConnector.GC runs on a one-minute ticker: the probe of the real loop is started now, as a process of its
+    own, and collected after the TLC runs."""
+    vlib.gen_go_mod()
+    out = os.path.join(ctx.work, "gc_probe.json")
+    env = vlib.go_env()
+    env.update({"VERIF_OUT": out, "VERIF_SEED": str(ctx.seed), "VERIF_TIER": ctx.tier, "VERIF_WORK": ctx.work})
+    box = {"out": out}
+
+    def work():
+        try:
+            p = subprocess.run(["go", "test", "-tags", "verif", "-count=1", "-vet=off", "-timeout", "900s", "-run", "TestGCProbe",
+                                "./drivers/discovery"], cwd=vlib.HARNESS, env=env, stdout=subprocess.PIPE, stderr=subprocess.STDOUT,
+                               timeout=1500, text=True, errors="replace")
+            box["rc"], box["log"] = p.returncode, p.stdout
+        except Exception as ex:
+            box["rc"], box["log"] = -1, str(ex)
+    t = threading.Thread(target=work, daemon=True)
+    t.start()
+    box["thread"] = t
+    return box
+
+
+def collect_gc_probe(ctx, box):
+    box["thread"].join(1600)
+    rep = None
+    if box.get("rc") == 0 and os.path.exists(box["out"]):
+        rep = json.load(open(box["out"]))
+    if rep is None:
+        ctx.inconclusive("GC probe failed (rc=%s): %s" % (box.get("rc"), (box.get("log") or "")[-800:]))
+        return
+    for v in rep.get("violations") or []:
+        ctx.violation(v.get("signature", "unspecified"), v.get("what", ""), v.get("replay"))
+    if not (rep.get("counters") or {}).get("gc_probe_ok") and not rep.get("violations"):
+        ctx.inconclusive("the GC probe did not finish")
+    ctx.cover(gc_probe_ok=(rep.get("counters") or {}).get("gc_probe_ok", 0))
 
 
 def run(ctx):
@@ -150,39 +240,50 @@ def run(ctx):
     ctx.assume("libp2p host / connection manager / event bus / discovery backend are scripted by the harness (environment)")
     ctx.assume("back-off time is modelled in ticks; the real deadlines are moved into the past, one hour per tick")
     ctx.assume("the backend returns each id at most once per FindPeers round; Stop and Advertise are not modelled")
+    gc_box = start_gc_probe(ctx)
 
+    jobs = []
     # 1. every interleaving of the bounded models, the code as it is: the properties that hold
     exh = ["MC_A", "MC_B", "MC_C", "MC_D", "MC_api"] + ([] if quick else ["MC_E", "MC_F"])
-    need = {"WAdd", "WWake", "WCallback", "WProtect", "WDial", "WHasBackoff", "DContains", "DRemove", "DCallback", "LoopDiscover",
-            "RoundEnd", "Tick", "GC", "CCall", "CPark", "CCancel", "EnvDrop"}
-    seen = set()
-    for c in exh:
-        r = ctx.tlc(BASE, "discovery/%s.cfg" % c, workers=8, timeout=900 if not quick else 300, coverage=not quick)
-        if not quick:
-            seen |= {a for a, n in r.coverage.items() if n > 0}
-    if not quick and seen:
-        missing = sorted(need - seen)
-        if missing:
-            ctx.inconclusive("vacuity: actions never taken in the exhaustive runs: %s" % missing)
-
-    # 2. model variants with the windows closed: the failing properties hold there (the properties are satisfiable and
-    #    name the atomicity that is missing)
-    for c in ["V_atomicPeers", "V_signedWant", "V_serialized"]:
-        ctx.tlc(BASE, "discovery/%s.cfg" % c, workers=8, timeout=600)
-
+    exh_jobs = [Job(BASE, "discovery/%s.cfg" % c, workers=4 if quick else 8, timeout=300 if quick else 1500, coverage=not quick)
+                for c in exh]
+    jobs += exh_jobs
+    # 2. model variants with the windows closed: the failing properties hold there (they are satisfiable, and the
+    #    variants name the atomicity that is missing)
+    jobs += [Job(BASE, "discovery/%s.cfg" % c, workers=4, timeout=600) for c in ("V_atomicPeers", "V_signedWant", "V_serialized")]
     # 3. liveness
+    live_w = None
     if not quick:
-        ctx.tlc(BASE, "discovery/Live.cfg", workers=8, timeout=900)
-        ctx.tlc(BASE, "discovery/Live_waiter_atomic.cfg", workers=4, timeout=600)
-        lw = ctx.tlc(BASE, "discovery/Live_waiter.cfg", workers=4, timeout=600, must_pass=False)
-        if lw.violated is None and lw.ok:
+        live_w = Job(BASE, "discovery/Live_waiter.cfg", must_pass=False, workers=4, timeout=900)
+        jobs += [Job(BASE, "discovery/Live.cfg", workers=4, timeout=1500),
+                 Job(BASE, "discovery/Live_waiter_atomic.cfg", workers=4, timeout=900), live_w]
+    # 4. witnesses of the properties that do not hold
+    wit_jobs = {key: Job(MC, "discovery/X_%s.cfg" % key, must_pass=False, workers=2, timeout=300) for key in FINDINGS}
+    jobs += list(wit_jobs.values())
+    # 4b. behaviours that reach the rarely taken decision branches (GoalCover stops TLC once all were reached)
+    goal_cfgs = ("Goals_limit", "Goals_one", "Goals_callers")
+    goal_jobs = {c: Job(MC, "discovery/%s.cfg" % c, must_pass=False, workers=4, timeout=600) for c in goal_cfgs}
+    jobs += list(goal_jobs.values())
+    # 5. seeded random behaviours for the replay
+    sims = ("Sim_disc.cfg", "Sim_disc1.cfg", "Sim_api.cfg")
+    jobs += [sim_job(ctx, cfg, 12 if quick else 60, 4) for cfg in sims]
+    tlc_many(ctx, jobs, parallel=3)
+
+    if not quick:
+        need = {"WAdd", "WWake", "WCallback", "WProtect", "WDial", "WHasBackoff", "DContains", "DRemove", "DCallback",
+                "LoopDiscover", "RoundEnd", "Tick", "GC", "CCall", "CPark", "CCancel", "EnvDrop", "ApiAdd", "ApiRemove"}
+        seen = set()
+        for j in exh_jobs:
+            seen |= {a for a, n in j.r.coverage.items() if n > 0}
+        if need - seen:
+            ctx.inconclusive("vacuity: actions never taken in the exhaustive runs: %s" % sorted(need - seen))
+        if live_w.r.ok and live_w.r.violated is None:
             ctx.note("Live_waiter: the lost wake-up is not reachable any more in the model as it is")
 
-    # 4. witnesses of the properties that do not hold
     behs = []
     found = {}
-    for key in FINDINGS:
-        r = ctx.tlc(MC, "discovery/X_%s.cfg" % key, workers=4, timeout=300, must_pass=False)
+    for key, j in wit_jobs.items():
+        r = j.r
         if r.violated and r.trace:
             try:
                 hist = plain(r.trace[-1][1]["hist"])
@@ -192,20 +293,29 @@ def run(ctx):
                 ctx.inconclusive("witness %s: cannot read TLC's counterexample: %s" % (key, ex))
         elif r.ok:
             ctx.note("witness %s: the model as it is satisfies the property (no counterexample)" % key)
-
-    # 5. seeded random behaviours for the replay
-    n = 40 if quick else 250
-    for cfg, k in (("Sim_disc.cfg", n), ("Sim_disc1.cfg", n), ("Sim_api.cfg", n)):
-        c = cfg_consts(cfg)
-        r, bs = simulate(ctx, cfg, k, 4, c["MaxLen"] + 1)
+    goals = {}
+    for c, j in goal_jobs.items():
+        want = set(re.findall(r'"(\w+)"', re.search(r"Wanted = \{([^}]*)\}", open(os.path.join(vlib.VERIF, "spec", "discovery", c + ".cfg")).read()).group(1)))
+        got = {}
+        for g in j.r.printed.get("GOAL", []):
+            if isinstance(g, dict) and (g["g"] not in got or len(g["hist"]) < len(got[g["g"]])):
+                got[g["g"]] = g["hist"]        # several workers print the same goal: keep the shortest behaviour
+        if want - set(got):
+            ctx.inconclusive("coverage goals not reached in %s: %s" % (c, sorted(want - set(got))))
+        for g, hist in sorted(got.items()):
+            behs.append(beh(c + ".cfg", "goal/" + g, norm_json_hist(hist)))
+            goals[g] = len(hist)
+    for cfg in sims:
+        bs = sim_behaviours(ctx, cfg)
         if not bs:
             ctx.inconclusive("no simulated behaviours from %s" % cfg)
         behs += bs
 
-    plan = {"behs": behs, "gc_probe": True}
+    plan = {"behs": behs, "gc_probe": False}
     plan_path = os.path.join(ctx.work, "plan.json")
     json.dump(plan, open(plan_path, "w"))
-    ctx.log("plan: %d behaviours (%d witnesses), %d steps" % (len(behs), len(found), sum(len(b["steps"]) for b in behs)))
+    ctx.log("plan: %d behaviours (%d witnesses, %d goals), %d steps" % (len(behs), len(found), len(goals), sum(len(b["steps"]) for b in behs)))
+    ctx.cover(goal_behaviours=goals)
 
     # 6. replay on the real code. A modelled (listed) failure is a known finding: matched in memory, nothing is written.
     for key, (kind, what) in FINDINGS.items():
@@ -218,7 +328,7 @@ def run(ctx):
         verdict = wit.get(key, "not run")
         if verdict == "reproduced":
             kind, what = FINDINGS[key]
-            ctx.violation("X_discovery/finding/" + key, "[%s] %s -- TLC counterexample of %d steps (spec/discovery/X_%s.cfg) reproduced "
+            ctx.violation("X_discovery/finding/" + key, "[%s] %s -- TLC counterexample of %d steps (spec/discovery/X_%s.cfg) forced "
                           "on the real code" % (kind, what, found[key], key))
         else:
             ctx.inconclusive("witness %s: TLC's counterexample was not reproduced on the real code (%s)" % (key, verdict))
@@ -226,8 +336,6 @@ def run(ctx):
         ctx.sample({"witness": s["expect"], "actions": [st["a"] for st in s["steps"]]}, limit=3)
     if cnt.get("behaviours_replayed", 0) < len(behs):
         ctx.inconclusive("driver replayed %s of %d behaviours" % (cnt.get("behaviours_replayed"), len(behs)))
-    if not cnt.get("gc_probe_ok") and not rep.get("violations"):
-        ctx.inconclusive("the GC probe did not finish")
     acts = summ.get("actions") or {}
     missing = sorted(a for a in ("WAdd", "WWake", "WCallback", "WProtect", "WDial", "WDialReturn", "WConnectedness", "DRecv",
                                  "DUnprotect", "DCallback", "LoopDiscover", "RoundEnd", "Tick", "CCall", "CPark", "CCancel",
@@ -235,3 +343,4 @@ def run(ctx):
     if missing:
         ctx.inconclusive("vacuity: actions never replayed on the real code: %s" % missing)
     ctx.cover(replayed_actions=acts, findings_reproduced_in_random_behaviours=summ.get("reproduced"), witnesses=wit)
+    collect_gc_probe(ctx, gc_box)
